@@ -69,7 +69,7 @@ def generate(tier, rng):
             le = n if opn else rng.randint(ls + 1, n)
             start = rng.randint(0, le - 1)
         else:
-            ls, le, start, opn = -1, -1, rng.randint(0, n - 1), False
+            ls, le, start, opn = -1, -1, rng.choice([rng.randint(0, n - 1)] * 6 + [n, n + 2]), False
         steps = []
         for _ in range(rng.randint(4, 30)):
             if rng.random() < 0.65:
